@@ -29,7 +29,7 @@ func execAttr(w []string) string {
 		fmt.Sscan(x, &l)
 		lens = append(lens, l)
 	}
-	ns, ok := gocql.VerifFlushAttribution(lens, limit)
+	ns, ok := gocql.VerifCoalescerAttribution(lens, limit)
 	parts := make([]string, len(ns))
 	for i := range ns {
 		b := "0"
@@ -379,16 +379,27 @@ func main() {
 		out.Close(extra)
 		os.Exit(0)
 	}
+	// writer-level tier: a scenario whose next command is not executable (the writer under test is somewhere the template
+	// does not expect it) leaves the process in a sane state - the run is wound up (quit, socket closed, held Writes ended)
+	// and the next scenario starts from a fresh writer: only that SCENARIO is lost (recorded as a line the model cannot
+	// answer: a broken tie). A process that does not become quiescent ends the campaign.
+	unconducted := 0
 	wcaseOut := func(c wcase) {
 		if c.cls == "fatal" {
-			bail(c.sop)
+			if strings.Contains(c.sop, "not quiescent") || unconducted >= 100 {
+				bail(c.sop)
+			}
+			unconducted++
+			fmt.Fprintln(os.Stderr, "c07:", c.sop)
+			deferred = append(deferred, schedCase{"harness-fatal " + strings.Join(strings.Fields(c.sop), " "), "fatal", "fatal"})
+			return
 		}
 		out.Case(c.top, "accept", "wtrace", true)
 		deferred = append(deferred, schedCase{c.sop, c.ans, c.cls})
 	}
 	for ci := 0; ci < 4; ci++ {
 		conf := wconf{coal: ci%2 == 1, wt: ci/2 == 1, lens: []int{40, 25, 31}}
-		for kind := 0; kind < 6; kind++ {
+		for kind := 0; kind < 7; kind++ {
 			for mid := 0; mid <= 2; mid++ {
 				cutsT := []int{1, 8, 9, 10, 39}
 				if kind == 1 {
@@ -396,6 +407,9 @@ func main() {
 				}
 				if kind == 4 {
 					cutsT = []int{0, 1, 9, 39}
+				}
+				if kind == 6 {
+					cutsT = []int{0, 1, 9, 24}
 				}
 				if kind == 5 {
 					if !conf.wt {
@@ -414,7 +428,7 @@ func main() {
 					if tier == "thorough" {
 						kinds = errKinds
 					}
-					if kind == 2 || kind == 4 {
+					if kind == 2 || kind == 4 || kind == 6 {
 						kinds = append(kinds, "ok")
 					}
 					if kind == 1 || kind == 3 || kind == 5 {
@@ -422,6 +436,41 @@ func main() {
 					}
 					for _, ek := range kinds {
 						wcaseOut(wTemplate(conf, kind, cut, mid, ek))
+					}
+				}
+			}
+		}
+	}
+	// size mixes across batching thresholds x a cut at a byte offset of the request stream (wSizeMix)
+	for ci := 0; ci < 4; ci++ {
+		for bi, big := range []int{16<<10 + 1, 64<<10 + 1, 1<<20 + 1} {
+			for pos := 0; pos < 3; pos++ {
+				lens := []int{40, 25}
+				lens = append(lens[:pos:pos], append([]int{big}, lens[pos:]...)...)
+				pre := 0 // bytes of the stream before the large frame
+				for _, l := range lens[:pos] {
+					pre += l
+				}
+				cuts := []int{0, 1, 39, 40, 41, 64, 65, 66, pre + 9, pre + 4096, pre + big - 1, pre + big, 65 + big - 1}
+				if tier == "thorough" {
+					cuts = nil
+					for c := 0; c <= 70; c++ {
+						cuts = append(cuts, c)
+					}
+					for _, c := range []int{4095, 4096, 4097, 16383, 16384, 16385, big - 1, big, big + 1, big + 24, big + 25, big + 26, big + 64} {
+						cuts = append(cuts, c, pre+c)
+					}
+				}
+				for cx, cut := range cuts {
+					if cut >= 65+big {
+						continue
+					}
+					kinds := []string{errKinds[(ci+bi+pos+cx)%len(errKinds)]}
+					if tier == "thorough" {
+						kinds = errKinds
+					}
+					for _, ek := range kinds {
+						wcaseOut(wSizeMix(wconf{coal: ci%2 == 1, wt: ci/2 == 1, lens: lens}, cut, ek))
 					}
 				}
 			}
